@@ -67,7 +67,9 @@ ObtainCreated(x) == /\ phase = "in" /\ obj = 0 /\ ~gen
                     /\ UNCHANGED <<phase, strict, gen, dbv>>
 
 ReadV == /\ phase = "in" /\ obj # 0
-         /\ hasV' = TRUE /\ optV' = FALSE /\ memV' = IF hasV \/ optV THEN memV ELSE dbv[1]
+         \* reading the None of a new object pins nothing: if the row is not inserted yet the None is dropped from memory
+         \* when it is (at the commit), if it was already inserted the read reloaded it: optV stays
+         /\ hasV' = ~optV /\ optV' = optV /\ memV' = IF hasV \/ optV THEN memV ELSE dbv[1]
          /\ ev' = Ev("ReadV", 0, "ok", {IF hasV \/ optV THEN memV ELSE dbv[1]})
          /\ UNCHANGED <<phase, strict, gen, obj, dirty, collFull, dbv>>
 
@@ -85,11 +87,12 @@ ReadColl == /\ phase = "in" /\ obj # 0
 
 Committed == IF ~dirty THEN dbv ELSE IF obj = 1 THEN <<memV, dbv[2]>> ELSE <<dbv[1], memV>>
 
-(* kind: "commit" (normal exit), "rollback" (rollback() then exit), "exc" (exit with an exception) *)
-End(kind) == /\ phase = "in" /\ (gen => kind # "rollback")     \* generator: "commit" = it returns, "exc" = closed early
+(* kind: "commit" (normal exit), "rollback" (rollback() then exit), "exc" (exit with an exception),
+   "badcommit" (normal exit whose COMMIT the database refuses: the session is over all the same, nothing is committed) *)
+End(kind) == /\ phase = "in" /\ (gen => kind \notin {"rollback", "badcommit"})     \* generator: "commit" = it returns, "exc" = closed early
              /\ phase' = "over"
              /\ dbv' = IF kind = "commit" THEN Committed ELSE dbv
-             /\ ev' = Ev("End", IF kind = "commit" THEN 0 ELSE IF kind = "rollback" THEN 1 ELSE 2, "ok", {})
+             /\ ev' = Ev("End", CASE kind = "commit" -> 0 [] kind = "rollback" -> 1 [] kind = "exc" -> 2 [] OTHER -> 3, "ok", {})
              /\ UNCHANGED <<strict, gen, obj, hasV, optV, memV, dirty, collFull>>
 
 ---------------------------------------------------------------------------
@@ -120,7 +123,7 @@ DetachedOps == \/ D_ReadV \/ D_ReadColl \/ D_ReadPk \/ D_Delete \/ D_CollAdd \/ 
 Next == \/ \E s, g \in BOOLEAN : Begin(s, g)
         \/ ObtainSeed \/ ObtainLoaded \/ ReadV \/ ReadColl
         \/ \E x \in 0 .. 2 : ObtainCreated(x) \/ SetV(x)
-        \/ \E k \in {"commit", "rollback", "exc"} : End(k)
+        \/ \E k \in {"commit", "rollback", "exc", "badcommit"} : End(k)
         \/ DetachedOps
 
 Spec == Init /\ [][Next]_vars
